@@ -70,6 +70,35 @@ pub struct CallbackRec {
     pub fn_ret: Ty,
     pub receiver: String,
     pub fn_pub: bool,
+    pub fn_unsafe: bool,
+}
+
+/// A place where a brand is created out of nothing: a call of a *brand source* (an `unsafe fn`
+/// whose result is a `Mutation` / `Finalization` with a lifetime the caller picks), or – in
+/// `arena.rs` – a reference produced by dereferencing a pointer cast (`&*(e as *const _)`).
+#[derive(Clone)]
+pub struct BrandSiteRec {
+    pub file: String,
+    pub fn_: String,
+    pub fn_last: String,
+    pub fn_unsafe: bool,
+    pub fn_pub: bool,
+    pub kind: String,
+    pub text: String,
+}
+
+/// What an identity-check function (`contains`) compares: the tail expression of its body.
+pub struct IdentityFnRec {
+    pub file: String,
+    pub name: String,
+    pub qual: String,
+    pub params: Vec<String>,
+    /// "==" | "ptr::eq" | "" (the tail is not a comparison)
+    pub cmp: String,
+    /// parameters each side of the comparison is computed from (through `let` bindings)
+    pub lhs_deps: Vec<String>,
+    pub rhs_deps: Vec<String>,
+    pub ret_bool: bool,
 }
 
 pub struct CollectRec {
@@ -125,6 +154,8 @@ pub struct MethodRec {
     pub trait_: String,
     /// the type arguments of the impl's self type, in the order of the ADT's type parameters
     pub self_args: Vec<Ty>,
+    /// result type of the method
+    pub ret: Ty,
     /// types of the non-receiver parameters, plus what a callback / iterator parameter supplies
     /// (`impl FnMut(usize) -> E` supplies `E`, `impl IntoIterator<Item = E>` supplies `E`)
     pub params: Vec<Ty>,
@@ -151,6 +182,9 @@ pub struct Table {
     pub all_sites: Vec<CallSiteRec>,
     pub call_sites: Vec<CallSiteRec>,
     pub methods: Vec<MethodRec>,
+    pub brand_sites: Vec<BrandSiteRec>,
+    pub brand_sources: Vec<(String, String, String)>,
+    pub identity_fns: Vec<IdentityFnRec>,
     pub auto_impls: Vec<AutoImplRec>,
     pub unclassified: Vec<String>,
     /// informational: item-level macro invocations / definitions that were not expanded
@@ -921,6 +955,7 @@ fn callback_from_bound(cx: &FnCtx, who: &str, outer_binder: &[String], tb: &syn:
         fn_ret: cx.fn_ret.clone(),
         receiver: cx.receiver.clone(),
         fn_pub: cx.fn_pub,
+        fn_unsafe: cx.fn_unsafe,
     });
 }
 
@@ -979,10 +1014,14 @@ struct TransmuteVisitor<'a, 'b> {
     out: Vec<TransmuteRec>,
     sites: Vec<CallSiteRec>,
     unclassified: Vec<String>,
+    brand_sites: Vec<BrandSiteRec>,
+    nested: Vec<syn::Item>,
 }
 
 /// Files whose `unsafe` regions must consist of recognised re-branding operations only.
 const REBRAND_FILES: &[&str] = &["dynamic_roots.rs"];
+/// Files in which every reference made from a pointer cast is recorded as a brand-creating site.
+const BRAND_CAST_FILES: &[&str] = &["arena.rs"];
 
 impl<'a, 'b> TransmuteVisitor<'a, 'b> {
     fn site(&self, callee: String, callee_path: String, args: Vec<&syn::Expr>, is_call: bool) -> CallSiteRec {
@@ -1012,12 +1051,20 @@ impl<'a, 'b> TransmuteVisitor<'a, 'b> {
                 if is_transmute_call(c).is_some() {
                     return true;
                 }
+                // a helper of this file: `Self::helper(..)`, `<own type>::helper(..)` or a bare name
                 match strip_expr(&c.func) {
-                    syn::Expr::Path(p) => p.path.segments.last().map(|s| names.contains(&s.ident.to_string())).unwrap_or(false),
+                    syn::Expr::Path(p) if p.qself.is_none() => {
+                        let segs: Vec<String> = p.path.segments.iter().map(|s| s.ident.to_string()).collect();
+                        let own = self.cx.qual.split("::").next().unwrap_or("").to_string();
+                        let head_ok = segs.len() == 1 || (segs.len() == 2 && (segs[0] == "Self" || segs[0] == own));
+                        head_ok && names.contains(segs.last().unwrap())
+                    }
                     _ => false,
                 }
             }
-            syn::Expr::MethodCall(m) => names.contains(&m.method.to_string()),
+            syn::Expr::MethodCall(m) => {
+                matches!(strip_expr(&m.receiver), syn::Expr::Path(p) if p.path.is_ident("self")) && names.contains(&m.method.to_string())
+            }
             syn::Expr::Unsafe(u) => self.single_op_block(&u.block),
             _ => false,
         }
@@ -1083,6 +1130,26 @@ impl<'ast, 'a, 'b> Visit<'ast> for TransmuteVisitor<'a, 'b> {
             self.unclassified.push(format!("unsafe block in {} ({}) is not a single transmute / helper call: {}", self.cx.qual, fname, squash(&node.block)));
         }
         syn::visit::visit_expr_unsafe(self, node);
+    }
+    fn visit_expr_unary(&mut self, node: &'ast syn::ExprUnary) {
+        // `*(e as *const _)` / `*(e as *mut _)`: a reference conjured from a pointer cast
+        if matches!(node.op, syn::UnOp::Deref(_)) {
+            if let syn::Expr::Cast(c) = strip_expr(&node.expr) {
+                let fname = &self.cx.k.files[self.cx.file].name;
+                if matches!(&*c.ty, syn::Type::Ptr(_)) && BRAND_CAST_FILES.contains(&fname.as_str()) {
+                    self.brand_sites.push(BrandSiteRec {
+                        file: fname.clone(),
+                        fn_: self.cx.qual.clone(),
+                        fn_last: self.cx.fn_last.clone(),
+                        fn_unsafe: self.cx.fn_unsafe,
+                        fn_pub: self.cx.fn_pub,
+                        kind: "cast".into(),
+                        text: squash(node),
+                    });
+                }
+            }
+        }
+        syn::visit::visit_expr_unary(self, node);
     }
     fn visit_expr_method_call(&mut self, node: &'ast syn::ExprMethodCall) {
         let mut args: Vec<&syn::Expr> = vec![&*node.receiver];
@@ -1156,6 +1223,10 @@ impl<'ast, 'a, 'b> Visit<'ast> for TransmuteVisitor<'a, 'b> {
     fn visit_macro(&mut self, node: &'ast syn::Macro) {
         // a transmute hidden inside a macro call in a function body cannot be analysed
         let s = squash(&node.tokens);
+        let fname = self.cx.k.files[self.cx.file].name.clone();
+        if (REBRAND_FILES.contains(&fname.as_str()) || BRAND_CAST_FILES.contains(&fname.as_str())) && node.tokens.clone().into_iter().any(|t| contains_ident(&t, "unsafe")) {
+            self.unclassified.push(format!("macro {}! in {} ({}) contains `unsafe` code that is not expanded", squash(&node.path), self.cx.qual, fname));
+        }
         if s.contains("transmute") {
             self.out.push(TransmuteRec {
                 file: self.cx.k.files[self.cx.file].name.clone(),
@@ -1191,8 +1262,106 @@ impl<'ast, 'a, 'b> Visit<'ast> for TransmuteVisitor<'a, 'b> {
             self.sites.push(s);
         }
     }
-    fn visit_item(&mut self, _node: &'ast syn::Item) {
-        // nested items are separate functions; not descended into (none contains a transmute)
+    fn visit_item(&mut self, node: &'ast syn::Item) {
+        // nested items are separate functions: analysed like module-level ones (after this body)
+        self.nested.push(node.clone());
+    }
+}
+
+fn contains_ident(t: &proc_macro2::TokenTree, id: &str) -> bool {
+    match t {
+        proc_macro2::TokenTree::Ident(i) => i == id,
+        proc_macro2::TokenTree::Group(g) => g.stream().into_iter().any(|t| contains_ident(&t, id)),
+        _ => false,
+    }
+}
+
+fn expr_idents(e: &syn::Expr) -> Vec<String> {
+    fn walk(ts: proc_macro2::TokenStream, out: &mut Vec<String>) {
+        for t in ts {
+            match t {
+                proc_macro2::TokenTree::Group(g) => walk(g.stream(), out),
+                proc_macro2::TokenTree::Ident(i) => out.push(i.to_string()),
+                _ => {}
+            }
+        }
+    }
+    let mut v = Vec::new();
+    walk(e.to_token_stream(), &mut v);
+    v
+}
+
+/// Structural summary of an identity-check function: which parameters the two sides of the final
+/// comparison are computed from.
+fn identity_fn(file: &str, qual: &str, sig: &syn::Signature, params: &[String], block: &syn::Block) -> IdentityFnRec {
+    let mut deps: HashMap<String, Vec<String>> = HashMap::new();
+    for p in params {
+        deps.insert(p.clone(), vec![p.clone()]);
+    }
+    let deps_of = |e: &syn::Expr, deps: &HashMap<String, Vec<String>>| -> Vec<String> {
+        let mut out: Vec<String> = Vec::new();
+        for id in expr_idents(e) {
+            if let Some(ds) = deps.get(&id) {
+                for d in ds {
+                    if !out.contains(d) {
+                        out.push(d.clone());
+                    }
+                }
+            }
+        }
+        out.sort();
+        out
+    };
+    let mut cmp = String::new();
+    let mut l = Vec::new();
+    let mut r = Vec::new();
+    let n = block.stmts.len();
+    for (i, st) in block.stmts.iter().enumerate() {
+        match st {
+            syn::Stmt::Local(loc) => {
+                let name = match &loc.pat {
+                    syn::Pat::Ident(pi) => Some(pi.ident.to_string()),
+                    syn::Pat::Type(pt) => match &*pt.pat {
+                        syn::Pat::Ident(pi) => Some(pi.ident.to_string()),
+                        _ => None,
+                    },
+                    _ => None,
+                };
+                if let (Some(name), Some(init)) = (name, &loc.init) {
+                    let d = deps_of(&init.expr, &deps);
+                    deps.insert(name, d);
+                }
+            }
+            syn::Stmt::Expr(e, None) if i + 1 == n => match strip_expr(e) {
+                syn::Expr::Binary(b) if matches!(b.op, syn::BinOp::Eq(_)) => {
+                    cmp = "==".into();
+                    l = deps_of(&b.left, &deps);
+                    r = deps_of(&b.right, &deps);
+                }
+                syn::Expr::Call(c) if c.args.len() == 2 => {
+                    if let syn::Expr::Path(p) = strip_expr(&c.func) {
+                        let segs: Vec<String> = p.path.segments.iter().map(|s| s.ident.to_string()).collect();
+                        if segs.last().map(|s| s == "eq").unwrap_or(false) && segs.iter().any(|s| s == "ptr" || s == "Rc" || s == "Weak") {
+                            cmp = "ptr::eq".into();
+                            l = deps_of(&c.args[0], &deps);
+                            r = deps_of(&c.args[1], &deps);
+                        }
+                    }
+                }
+                _ => {}
+            },
+            _ => {}
+        }
+    }
+    IdentityFnRec {
+        file: file.to_string(),
+        name: sig.ident.to_string(),
+        qual: qual.to_string(),
+        params: params.to_vec(),
+        cmp,
+        lhs_deps: l,
+        rhs_deps: r,
+        ret_bool: matches!(&sig.output, syn::ReturnType::Type(_, t) if squash(t) == "bool"),
     }
 }
 
@@ -1249,14 +1418,29 @@ fn do_fn(
             })
             .collect(),
     };
+    {
+        let own_lts: Vec<String> = sig.generics.params.iter().filter_map(|p| if let syn::GenericParam::Lifetime(l) = p { Some(l.lifetime.ident.to_string()) } else { None }).collect();
+        let ctxs = ["Mutation", "Finalization"];
+        if cx.fn_ret.mentions_adt(&ctxs) && !own_lts.is_empty() {
+            let inputs: String = sig.inputs.iter().map(|a| squash(a)).collect::<Vec<_>>().join(",");
+            let ret = squash(&sig.output);
+            let free = own_lts.iter().any(|l| ret.contains(&format!("'{}", l)) && !inputs.contains(&format!("'{}", l)));
+            if free {
+                tbl.brand_sources.push((cx.fn_last.clone(), cx.qual.clone(), k.files[fi].name.clone()));
+            }
+        }
+    }
     if inherent {
         let mut cbs = Vec::new();
         callbacks_of_fn(&mut cx, sig, &mut cbs);
         tbl.callbacks.extend(cbs);
     }
     if let Some(b) = block {
-        let mut v = TransmuteVisitor { cx: &cx, guards: vec![], cast_next: None, out: vec![], sites: vec![], unclassified: vec![] };
+        let mut v = TransmuteVisitor { cx: &cx, guards: vec![], cast_next: None, out: vec![], sites: vec![], unclassified: vec![], brand_sites: vec![], nested: vec![] };
         v.visit_block(b);
+        if REBRAND_FILES.contains(&k.files[fi].name.as_str()) && cx.fn_ret == Ty::Prim("bool".into()) {
+            tbl.identity_fns.push(identity_fn(&k.files[fi].name, &cx.qual, sig, &cx.fn_params, b));
+        }
         let fname = &k.files[fi].name;
         if cx.fn_unsafe && REBRAND_FILES.contains(&fname.as_str()) && !v.single_op_block(b) {
             // the whole body of an `unsafe fn` is an unsafe region
@@ -1265,6 +1449,11 @@ fn do_fn(
         tbl.transmutes.extend(v.out);
         tbl.all_sites.extend(v.sites);
         tbl.unclassified.extend(v.unclassified);
+        tbl.brand_sites.extend(v.brand_sites);
+        let nested = std::mem::take(&mut v.nested);
+        if !nested.is_empty() {
+            facts_items(k, fi, &nested, tbl);
+        }
     }
 }
 
@@ -1306,43 +1495,86 @@ fn ty_mentions_param(t: &Ty) -> bool {
     }
 }
 
-fn record_method(k: &Krate, fi: usize, impl_sc: &Scope, self_ty: &Ty, im: &syn::ItemImpl, m: &syn::ImplItemFn, tbl: &mut Table) {
-    let Ty::Adt { name, tys, .. } = self_ty else { return };
-    let Some(raw) = k.adts.get(name) else { return };
-    if raw.vis != "pub" || m.sig.unsafety.is_some() {
-        return;
+fn strip_refs(t: &Ty) -> &Ty {
+    match t {
+        Ty::Ref(_, t) | Ty::RefMut(_, t) => strip_refs(t),
+        t => t,
     }
-    // callable by safe client code: a `pub` inherent method, or any method of a trait impl
-    if im.trait_.is_none() && !matches!(m.vis, syn::Visibility::Public(_)) {
-        return;
+}
+
+/// `&mut X` / `&mut MaybeUninit<X>` handed *to* the client (callback argument, result): a channel
+/// through which the client can write an `X`.
+fn mut_channel(t: &Ty, out: &mut Vec<Ty>) {
+    match t {
+        Ty::RefMut(_, inner) => match &**inner {
+            Ty::Std("maybeUninit", a) if a.len() == 1 => out.push(a[0].clone()),
+            Ty::Slice(e) => match &**e {
+                Ty::Std("maybeUninit", a) if a.len() == 1 => out.push(a[0].clone()),
+                other => out.push(other.clone()),
+            },
+            other => out.push(other.clone()),
+        },
+        Ty::Std(_, ts) | Ty::Tuple(ts) => ts.iter().for_each(|t| mut_channel(t, out)),
+        _ => {}
     }
-    let sc = k.scope_for(fi, Some(impl_sc), &m.sig.generics);
-    let mut params: Vec<Ty> = Vec::new();
-    for inp in &m.sig.inputs {
-        if let syn::FnArg::Typed(pt) = inp {
-            match &*pt.ty {
-                syn::Type::ImplTrait(it) => supplied_by_bounds(it.bounds.iter(), k, &sc, &mut params),
-                t => params.push(k.ty(t, &sc)),
+}
+
+fn mut_channels_of_bounds<'x>(bounds: impl Iterator<Item = &'x syn::TypeParamBound>, k: &Krate, sc: &Scope, out: &mut Vec<Ty>) {
+    for b in bounds {
+        if let syn::TypeParamBound::Trait(tb) = b {
+            if let Some(seg) = tb.path.segments.last() {
+                if let syn::PathArguments::Parenthesized(pa) = &seg.arguments {
+                    for i in &pa.inputs {
+                        mut_channel(&k.ty(i, sc), out);
+                    }
+                }
             }
         }
     }
-    for p in &m.sig.generics.params {
-        if let syn::GenericParam::Type(t) = p {
-            supplied_by_bounds(t.bounds.iter(), k, &sc, &mut params);
+}
+
+/// Record a safe, client-callable function as a potential store into every public ADT it receives
+/// (the receiver, or any parameter of ADT type – free functions included).
+fn record_store_fns(k: &Krate, fi: usize, base_sc: &Scope, self_ty: Option<&Ty>, trait_name: &str, callable: bool, sig: &syn::Signature, tbl: &mut Table) {
+    if !callable || sig.unsafety.is_some() {
+        return;
+    }
+    let sc = k.scope_for(fi, Some(base_sc), &sig.generics);
+    // (index of the parameter that is the target, its type) – the receiver has index usize::MAX
+    let mut typed: Vec<(usize, Ty, bool)> = Vec::new(); // (idx, type, is_impl_trait)
+    let mut has_receiver = false;
+    let mut from_bounds: Vec<Ty> = Vec::new();
+    for (i, inp) in sig.inputs.iter().enumerate() {
+        match inp {
+            syn::FnArg::Receiver(_) => has_receiver = true,
+            syn::FnArg::Typed(pt) => match &*pt.ty {
+                syn::Type::ImplTrait(it) => {
+                    supplied_by_bounds(it.bounds.iter(), k, &sc, &mut from_bounds);
+                    mut_channels_of_bounds(it.bounds.iter(), k, &sc, &mut from_bounds);
+                }
+                t => typed.push((i, k.ty(t, &sc), false)),
+            },
         }
     }
-    if let Some(w) = &m.sig.generics.where_clause {
+    for p in &sig.generics.params {
+        if let syn::GenericParam::Type(t) = p {
+            supplied_by_bounds(t.bounds.iter(), k, &sc, &mut from_bounds);
+            mut_channels_of_bounds(t.bounds.iter(), k, &sc, &mut from_bounds);
+        }
+    }
+    if let Some(w) = &sig.generics.where_clause {
         for pr in &w.predicates {
             if let syn::WherePredicate::Type(pt) = pr {
-                supplied_by_bounds(pt.bounds.iter(), k, &sc, &mut params);
+                supplied_by_bounds(pt.bounds.iter(), k, &sc, &mut from_bounds);
+                mut_channels_of_bounds(pt.bounds.iter(), k, &sc, &mut from_bounds);
             }
         }
     }
-    // only methods through which a value of a parameter type can be handed in are of interest
-    let params: Vec<Ty> = params.into_iter().filter(ty_mentions_param).collect();
-    if params.is_empty() {
-        return;
-    }
+    let ret = match &sig.output {
+        syn::ReturnType::Default => Ty::unit(),
+        syn::ReturnType::Type(_, t) => k.ty(t, &sc),
+    };
+    mut_channel(&ret, &mut from_bounds);
     let mut bounded: Vec<String> = Vec::new();
     for p in &sc.tys {
         let b = sc.static_params.contains(p) || sc.bounds.iter().any(|(w, tr)| w == p && tr.name == "Collect");
@@ -1350,15 +1582,60 @@ fn record_method(k: &Krate, fi: usize, impl_sc: &Scope, self_ty: &Ty, im: &syn::
             bounded.push(p.clone());
         }
     }
-    tbl.methods.push(MethodRec {
-        adt: name.clone(),
-        file: k.files[fi].name.clone(),
-        method: m.sig.ident.to_string(),
-        trait_: im.trait_.as_ref().map(|(_, p, _)| p.segments.last().unwrap().ident.to_string()).unwrap_or_default(),
-        self_args: tys.clone(),
-        params,
-        bounded,
-    });
+    let mut targets: Vec<(usize, Ty)> = Vec::new();
+    if has_receiver || self_ty.is_some() {
+        if let (true, Some(st)) = (has_receiver, self_ty) {
+            targets.push((usize::MAX, st.clone()));
+        }
+    }
+    for (i, t, _) in &typed {
+        targets.push((*i, strip_refs(t).clone()));
+    }
+    let ret_head = match &ret {
+        Ty::Std(c, a) if (*c == "option" || *c == "result") && !a.is_empty() => a[0].clone(),
+        r => r.clone(),
+    };
+    let ret_is_adt = matches!(&ret_head, Ty::Adt { name, .. } if k.adts.contains_key(name)) && ty_mentions_param(&ret_head);
+    for (ti, tt) in targets {
+        let Ty::Adt { name, tys, .. } = &tt else { continue };
+        let Some(raw) = k.adts.get(name) else { continue };
+        if raw.vis != "pub" || !tys.iter().any(ty_mentions_param) {
+            continue;
+        }
+        let mut params: Vec<Ty> = typed.iter().filter(|(i, _, _)| *i != ti).map(|(_, t, _)| t.clone()).collect();
+        params.extend(from_bounds.iter().cloned());
+        let params: Vec<Ty> = params.into_iter().filter(ty_mentions_param).collect();
+        if params.is_empty() && !ret_is_adt {
+            continue;
+        }
+        tbl.methods.push(MethodRec {
+            adt: name.clone(),
+            file: k.files[fi].name.clone(),
+            method: sig.ident.to_string(),
+            trait_: trait_name.to_string(),
+            self_args: tys.clone(),
+            ret: ret.clone(),
+            params,
+            bounded: bounded.clone(),
+        });
+    }
+}
+
+fn collect_impl_fact(k: &Krate, fi: usize, sc: &Scope, self_ty: &Ty, im: &syn::ItemImpl, cfg: String, tbl: &mut Table) {
+    let (lts, prs, _) = param_recs(&im.generics);
+    let tys = prs.iter().map(|p| (p.name.clone(), sc.static_params.contains(&p.name))).collect();
+    let mut self_static = false;
+    if let Some(w) = &im.generics.where_clause {
+        for pr in &w.predicates {
+            if let syn::WherePredicate::Type(pt) = pr {
+                let is_self = squash(&pt.bounded_ty) == squash(&im.self_ty) || squash(&pt.bounded_ty) == "Self";
+                if is_self && pt.bounds.iter().any(|b| matches!(b, syn::TypeParamBound::Lifetime(l) if l.ident == "static")) {
+                    self_static = true;
+                }
+            }
+        }
+    }
+    tbl.collect_impls.push(CollectRec { file: k.files[fi].name.clone(), self_ty: self_ty.clone(), lts, tys, self_static, cfg });
 }
 
 fn macro_tokens_flag(tokens: &proc_macro2::TokenStream) -> Vec<&'static str> {
@@ -1396,6 +1673,7 @@ fn facts_items(k: &Krate, fi: usize, items: &[syn::Item], tbl: &mut Table) {
             syn::Item::Fn(f) => {
                 if let Cfg::Skip = cfg_of(&f.attrs) { continue; }
                 let base = Scope { file: fi, ..Default::default() };
+                record_store_fns(k, fi, &base, None, "", matches!(f.vis, syn::Visibility::Public(_)), &f.sig, tbl);
                 do_fn(k, fi, &base, "", &f.vis, &f.sig, Some(&f.block), true, tbl);
             }
             syn::Item::Impl(im) => {
@@ -1410,26 +1688,15 @@ fn facts_items(k: &Krate, fi: usize, items: &[syn::Item], tbl: &mut Table) {
                         tbl.auto_impls.push(AutoImplRec { trait_: tname.clone(), negative: neg.is_some(), target: self_name.clone(), file: fname.clone(), cfg: cfg.clone() });
                     }
                     if tname == "Collect" {
-                        let (lts, prs, _) = param_recs(&im.generics);
-                        let tys = prs.iter().map(|p| (p.name.clone(), sc.static_params.contains(&p.name))).collect();
-                        let mut self_static = false;
-                        if let Some(w) = &im.generics.where_clause {
-                            for pr in &w.predicates {
-                                if let syn::WherePredicate::Type(pt) = pr {
-                                    let is_self = squash(&pt.bounded_ty) == squash(&im.self_ty) || squash(&pt.bounded_ty) == "Self";
-                                    if is_self && pt.bounds.iter().any(|b| matches!(b, syn::TypeParamBound::Lifetime(l) if l.ident == "static")) {
-                                        self_static = true;
-                                    }
-                                }
-                            }
-                        }
-                        tbl.collect_impls.push(CollectRec { file: fname.clone(), self_ty: self_ty.clone(), lts, tys, self_static, cfg: cfg.clone() });
+                        collect_impl_fact(k, fi, &sc, &self_ty, im, cfg.clone(), tbl);
                     }
                 }
                 for ii in &im.items {
                     if let syn::ImplItem::Fn(m) = ii {
                         if let Cfg::Skip = cfg_of(&m.attrs) { continue; }
-                        record_method(k, fi, &sc, &self_ty, im, m, tbl);
+                        let callable = im.trait_.is_some() || matches!(m.vis, syn::Visibility::Public(_));
+                        let tn = im.trait_.as_ref().map(|(_, p, _)| p.segments.last().unwrap().ident.to_string()).unwrap_or_default();
+                        record_store_fns(k, fi, &sc, Some(&self_ty), &tn, callable, &m.sig, tbl);
                         do_fn(k, fi, &sc, &self_name, &m.vis, &m.sig, Some(&m.block), im.trait_.is_none(), tbl);
                     }
                 }
@@ -1474,12 +1741,16 @@ fn main() {
     let mut repo = String::from("/repo");
     let mut lean_out = String::from("/verif/lean/GcArena/Generated/BrandTable.lean");
     let mut json_out = String::new();
+    // macro-expanded crate (`cargo +nightly rustc -- -Zunpretty=expanded`): when given, the `Collect`
+    // impls are read from it, so impls generated by the crate's own `macro_rules!` are seen
+    let mut expanded = String::new();
     let mut args = std::env::args().skip(1);
     while let Some(a) = args.next() {
         match a.as_str() {
             "--repo" => repo = args.next().expect("--repo PATH"),
             "--lean" => lean_out = args.next().expect("--lean FILE"),
             "--json" => json_out = args.next().expect("--json FILE"),
+            "--expanded" => expanded = args.next().expect("--expanded FILE"),
             other => {
                 eprintln!("unknown argument {}", other);
                 std::process::exit(2);
@@ -1545,6 +1816,39 @@ fn main() {
     for (fi, ast) in asts.iter().enumerate() {
         index_items(&mut k, fi, &ast.items);
     }
+    // pseudo files for the modules of the macro-expanded crate (imports only; their types are the
+    // crate's own, already indexed from the raw sources)
+    let mut expanded_mods: Vec<(usize, Vec<syn::Item>)> = Vec::new();
+    let mut expanded_ok = false;
+    if !expanded.is_empty() {
+        match std::fs::read_to_string(&expanded).ok().and_then(|t| syn::parse_file(&t).ok()) {
+            Some(ast) => {
+                expanded_ok = true;
+                for it in ast.items {
+                    if let syn::Item::Mod(m) = it {
+                        if m.ident == "verif" {
+                            continue;
+                        }
+                        if let Some((_, items)) = m.content {
+                            let fi = k.files.len();
+                            k.files.push(FileInfo { name: format!("{}.rs", m.ident), module: m.ident.to_string(), imports: HashMap::new(), local_names: HashSet::new(), fn_names: HashSet::new() });
+                            for it in &items {
+                                if let syn::Item::Use(u) = it {
+                                    let mut v = Vec::new();
+                                    flatten_use("", &u.tree, &mut v);
+                                    for (id, p) in v {
+                                        k.files[fi].imports.insert(id, p);
+                                    }
+                                }
+                            }
+                            expanded_mods.push((fi, items));
+                        }
+                    }
+                }
+            }
+            None => k.unclassified.push(format!("the macro-expanded crate {} does not parse", expanded)),
+        }
+    }
     let mut tbl = Table::default();
     tbl.files = names.clone();
     // ADTs and aliases
@@ -1590,15 +1894,17 @@ fn main() {
     // `unsafe fn`s holding a transmute in a re-branding file, and (transitively) their private
     // unsafe callers.  Matching is by last path segment, crate-wide (over-approximation: fail closed).
     let mut relevant: Vec<String> = Vec::new();
+    // (F2) any `unsafe fn` – public or not – holding a transmute of a re-branding file: its in-crate
+    // callers must be covered; only out-of-crate callers are discharged by the unsafe contract
     for t in &tbl.transmutes {
-        if REBRAND_FILES.contains(&t.file.as_str()) && t.fn_unsafe && !t.fn_pub && !relevant.contains(&t.fn_last) {
+        if REBRAND_FILES.contains(&t.file.as_str()) && t.fn_unsafe && !relevant.contains(&t.fn_last) {
             relevant.push(t.fn_last.clone());
         }
     }
     for _ in 0..8 {
         let mut grew = false;
         for s in &tbl.all_sites {
-            if relevant.contains(&s.callee) && s.caller_unsafe && !s.caller_pub && !relevant.contains(&s.caller_last) {
+            if relevant.contains(&s.callee) && s.caller_unsafe && !relevant.contains(&s.caller_last) {
                 relevant.push(s.caller_last.clone());
                 grew = true;
             }
@@ -1607,7 +1913,64 @@ fn main() {
             break;
         }
     }
-    tbl.call_sites = tbl.all_sites.iter().filter(|s| relevant.contains(&s.callee)).cloned().collect();
+    // brand-creating sites: calls of brand sources, anywhere in the crate
+    let source_names: Vec<String> = tbl.brand_sources.iter().map(|(n, _, _)| n.clone()).collect();
+    let mut extra_sites: Vec<BrandSiteRec> = Vec::new();
+    for s in &tbl.all_sites {
+        if source_names.contains(&s.callee) {
+            extra_sites.push(BrandSiteRec {
+                file: s.file.clone(),
+                fn_: s.caller.clone(),
+                fn_last: s.caller_last.clone(),
+                fn_unsafe: s.caller_unsafe,
+                fn_pub: s.caller_pub,
+                kind: if s.is_call { "source-call".into() } else { "source-mention".into() },
+                text: format!("{}({})", s.callee_path, s.args.join(",")),
+            });
+        }
+    }
+    tbl.brand_sites.extend(extra_sites);
+    // … and the call sites through which they are lifted: functions holding a brand site that are
+    // not themselves client entry points (private or unsafe), transitively
+    let mut lift: Vec<String> = Vec::new();
+    for b in &tbl.brand_sites {
+        if (b.fn_unsafe || !b.fn_pub) && !lift.contains(&b.fn_last) {
+            lift.push(b.fn_last.clone());
+        }
+    }
+    for _ in 0..8 {
+        let mut grew = false;
+        for s in &tbl.all_sites {
+            if lift.contains(&s.callee) && (s.caller_unsafe || !s.caller_pub) && !lift.contains(&s.caller_last) {
+                lift.push(s.caller_last.clone());
+                grew = true;
+            }
+        }
+        if !grew {
+            break;
+        }
+    }
+    // a brand source itself is not lifted through (its own body is the unsafe contract)
+    lift.retain(|n| !source_names.contains(n));
+    tbl.call_sites = tbl.all_sites.iter().filter(|s| relevant.contains(&s.callee) || lift.contains(&s.callee)).cloned().collect();
+    if expanded_ok {
+        // `Collect` impls: from the expanded crate (replaces what the raw pass found)
+        tbl.collect_impls.clear();
+        for (fi, items) in &expanded_mods {
+            for it in items {
+                if let syn::Item::Impl(im) = it {
+                    if let Cfg::Skip = cfg_of(&im.attrs) { continue; }
+                    if let Some((_, path, _)) = &im.trait_ {
+                        if path.segments.last().unwrap().ident == "Collect" {
+                            let sc = k.scope_for(*fi, None, &im.generics);
+                            let self_ty = k.ty(&im.self_ty, &sc);
+                            collect_impl_fact(&k, *fi, &sc, &self_ty, im, String::new(), &mut tbl);
+                        }
+                    }
+                }
+            }
+        }
+    }
     tbl.unclassified.extend(k.unclassified.iter().cloned());
     // unclassified nodes inside recorded facts are surfaced at top level too
     fn scan(t: &Ty, out: &mut Vec<String>, wher: &str) {
